@@ -32,6 +32,7 @@ func init() {
 	register(mpxflowScn{})
 	register(chanendScn{})
 	register(windowScn{})
+	register(rpcScn{})
 }
 
 // RunOpts are per-execution options that do not belong to the plan.
